@@ -498,7 +498,7 @@ func readerSeq(args []string) error {
 			}
 			var delivered []byte
 			for _, call := range c.Calls {
-				before := src.pos
+				before := srcPos(src)
 				e := rec{"op": call.Op, "sz": call.Sz, "n": 0, "err": "none", "size": []int{0, 0, 0, 0}}
 				switch call.Op {
 				case "read":
@@ -527,7 +527,7 @@ func readerSeq(args []string) error {
 					before = 0
 					zr.Reset(src)
 				}
-				e["cons"] = src.pos - before
+				e["cons"] = srcPos(src) - before
 				res.calls = append(res.calls, e)
 			}
 			if !isPrefix(delivered, content) {
